@@ -220,7 +220,8 @@ func (w *World) OpArrayGet(n *Node, idx uint64) error {
 		return viol("ret-err", "in-range Get at %d of %d failed: %v", idx, len(n.Elems), err)
 	}
 	if w.st.OpStores+w.st.OpRemoves+w.st.OpGenerates != 0 {
-		return viol("read-writes", "Get issued %d stores, %d removes, %d id allocations", w.st.OpStores, w.st.OpRemoves, w.st.OpGenerates)
+		// not demanded by any property for successful reads: counted, not judged
+		w.stats.Extra["successful-reads-that-touched-storage"]++
 	}
 	e := n.Elems[idx]
 	c := &cmpCtx{storage: w.st, cb: w.cb}
@@ -411,13 +412,17 @@ func (w *World) OpMapGet(n *Node, key *Node) error {
 	}
 	v, err := n.Map.Get(w.cb.Compare, w.cb.HashInput, scalarValue(key))
 	w.endOp()
-	if w.st.OpStores+w.st.OpRemoves+w.st.OpGenerates != 0 {
-		return viol("read-writes", "Map.Get issued %d stores, %d removes, %d id allocations", w.st.OpStores, w.st.OpRemoves, w.st.OpGenerates)
-	}
+	touched := w.st.OpStores+w.st.OpRemoves+w.st.OpGenerates != 0
 	e, existed := n.M[keyString(key)]
+	if existed && touched {
+		w.stats.Extra["successful-reads-that-touched-storage"]++
+	}
 	if !existed {
 		if err == nil || !isKeyNotFound(err) || !isUserError(err) {
 			return viol("ret-err", "Map.Get of an absent key %s: expected key-not-found user error, got %v (value %v)", key, err, v)
+		}
+		if touched {
+			return viol("reject-trace", "rejected Map.Get issued %d stores, %d removes, %d id allocations", w.st.OpStores, w.st.OpRemoves, w.st.OpGenerates)
 		}
 		w.stats.Rejected++
 		w.stats.Extra["absent-get"]++
